@@ -50,6 +50,21 @@ def equal_owner_pass(ctx):
                         f'multi-owner: a child given to the second of two equal (not identical) containers: first holds it {holds(b1)}, '
                         f'second holds it {holds(b2)}, eContainer() is the second {x.eContainer() is b2}', {'equal_owner': k, 'many': many})
             return
+        # a root of a resource given to a container through a resolved proxy standing for it: it leaves the roots
+        from pyecore.ecore import EProxy
+        rr = Resource()
+        y, b3 = Item(), Box('c')
+        rr.append(y)
+        if many:
+            b3.items.append(EProxy(wrapped=y))
+        else:
+            b3.items = EProxy(wrapped=y)
+        if any(c is y for c in rr.contents) or y.eContainer() is not b3:
+            ctx.violate({'clause': 'multi-owner', 'through_proxy': True},
+                        f'multi-owner: a root contained through a resolved proxy standing for it: still a root of its resource '
+                        f'{any(c is y for c in rr.contents)}, eContainer() is the new container {y.eContainer() is b3}',
+                        {'equal_owner': k, 'proxy_root': True})
+            return
         # two equal roots: removing the second must not take out the first
         r = Resource()
         r.append(b1); r.append(b2)
